@@ -155,6 +155,7 @@ class DhtmlxGantt:
                         'type': "0"
                     })
 
+        # Data is embedded into <script> element, so '<' is escaped: text like '</script>' must not close the element
         return json.dumps(
             {
                 "data": data,
@@ -162,7 +163,7 @@ class DhtmlxGantt:
             },
             ensure_ascii=False,
             indent=2
-        )
+        ).replace('<', '\\u003c')
 
     def to_html(self):
 
